@@ -873,6 +873,7 @@ def sweep_tasks(rows, Ns, max_variants):
         for N in Ns:
             tasks.append({"kind": "sweep", "id": "%s|%s|%s|%d" % (r["fn"], r["payload"], r["key"], N), "fd": r["idx"],
                           "key": r["key"], "N": N, "mode": mode, "max_variants": max_variants,
+                          "optroute": WORKER_OPT_ROUTES[len(tasks) % 3],
                           "_row": {"fn": r["fn"], "payload": r["payload"], "key": r["key"], "mode": mode,
                                    "typed": not r["acc_int"]}})
     return tasks
@@ -937,7 +938,7 @@ def o_sweep(run, deep):
                                   "fed by a lambda that returns an endless iterator" if row["mode"] == "lambda" else "fed by an endless iterator")
             run.fail("violation", "%s escapes yaql.limitIterators" % what,
                      {"kind": "sweep", "function": row["fn"], "payload": row["payload"], "parameter": row["key"],
-                      "mode": row["mode"], "N": N, "other_arguments": bad["variant"],
+                      "mode": row["mode"], "N": N, "options_route": t.get("optroute"), "other_arguments": bad["variant"],
                       "observed": {"outcome": bad["outcome"], "pulls_from_one_source": bad["pulls"]},
                       "required": "at most %d pulls and termination" % (N + 1),
                       "replay_task": {k: v for k, v in t.items() if k != "_row"}})
@@ -953,6 +954,7 @@ def o_sweep(run, deep):
 
 
 # ---- expressions (corpus + generated) -------------------------------------
+WORKER_OPT_ROUTES = ["create", "per-expression", "per-expression-over-lax"]
 LIMIT_EXPRS = [
     "sequence().len()", "generateMany(0, sequence())", "sequence().count()", "sequence().toList()", "sequence().sum()",
     "sequence().select($ * 2)", "sequence().where($ > 3).first()", "sequence().skip(10).take(100)", "sequence().last()",
@@ -966,6 +968,11 @@ LIMIT_EXPRS = [
     "sequence().mergeWith(sequence())", "cycle([1, 2])", "repeat(1)", "repeat(1).len()", "cycle([1]).len()",
     "[sequence()]", "{a => sequence()}", "[[sequence()]]", "sequence().defaultIfEmpty([1])", "sequence().append(1)",
     "[1].concat(sequence())", "str(sequence().toList())", "sequence().sliceWhere($ > 3)", "sequence().lastIndexOf(-1)",
+    # collections and lazy sequences as dictionary KEYS (yaql values are hashable)
+    "{[0] * 14 => 1}", "dict([[[0] * 14, 1]])", "[1].toDict([0] * 14, $)", "{a => 1}.set([0] * 14, 2)",
+    "{set(0, 1, 2, 3).union(set(4, 5, 6, 7, 8)) => 1}", "dict([[sequence(), 1]])", "[1, [{[0] * 14 => 1}]]",
+    "{a => {b => {[0] * 14 => 1}}}", "{{a => 1, b => 2, c => 3, d => 4} + {e => 5, f => 6, g => 7, h => 8} => 1}",
+    "[1].toDict(sequence(), $)", "{[[0] * 14] => 1}",
     "range(100)", "range(100).len()", "range(100).toList().len()", "range(3).select(sequence())", "dict(sequence().select([$, $]))",
     "let(sequence()) -> $.len()", "let(x => sequence()) -> $x.len()", "sequence().last(0)", "sequence().single()",
     "sequence().enumerate()", "sequence().firstIndexWhere($ < 0)" , "sequence().lastIndexWhere($ < 0)", "sequence().min()",
@@ -981,13 +988,14 @@ def o_expressions(run, deep, corpus):
             k += 1
             t = {"kind": "expr", "id": "corpus%d" % k, "expr": c["expr"], "N": c.get("N"), "Q": c.get("Q"),
                  "ctx": c.get("ctx"), "trace": bool(c.get("Q")), "raw": bool(c.get("Q")),
-                 "record_args": bool(c.get("Q")), "seconds": 5}
+                 "record_args": bool(c.get("Q")), "seconds": 5, "optroute": c.get("optroute")}
             tasks.append(t)
             info[t["id"]] = c
     for e in LIMIT_EXPRS:
         for N in Ns:
             k += 1
-            t = {"kind": "expr", "id": "limit%d" % k, "expr": e, "N": N, "seconds": 5}
+            t = {"kind": "expr", "id": "limit%d" % k, "expr": e, "N": N, "seconds": 5,
+                 "optroute": WORKER_OPT_ROUTES[k % 3]}
             tasks.append(t)
             info[t["id"]] = {"expr": e, "N": N}
     pool = Pool(deadline=10.0)
@@ -1003,9 +1011,15 @@ def o_expressions(run, deep, corpus):
         out = "Hung" if res.get("hung") else res["outcome"]
         run.count("expr:%s" % out.split(":")[0])
         if t.get("N") is not None and t["N"] >= 0:
-            if out in ("Hung", "Timeout", "MemoryError", "PullCap") or res.get("pulls", 0) > t["N"] + 1:
+            if out == "Ok" and (res.get("width") or 0) > t["N"]:
+                run.fail("violation", "evaluation under yaql.limitIterators returned a result that holds a collection with more elements "
+                                      "than the limit (or a lazy sequence), dictionary keys included",
+                         {"kind": "expr", "expr": t["expr"], "N": t["N"], "ctx": t.get("ctx"), "optroute": t.get("optroute"),
+                          "observed": {"outcome": out, "largest_collection_in_result": res.get("width")},
+                          "required": "CollectionTooLargeException, or a plain result with every collection (keys included) <= N elements"})
+            elif out in ("Hung", "Timeout", "MemoryError", "PullCap") or res.get("pulls", 0) > t["N"] + 1:
                 run.fail("violation", "evaluation of `%s` under yaql.limitIterators does not terminate with CollectionTooLargeException" % t["expr"],
-                         {"kind": "expr", "expr": t["expr"], "N": t["N"], "ctx": t.get("ctx"),
+                         {"kind": "expr", "expr": t["expr"], "N": t["N"], "ctx": t.get("ctx"), "optroute": t.get("optroute"),
                           "observed": {"outcome": out, "pulls": res.get("pulls")},
                           "required": "termination: a plain result with every collection <= N elements, or CollectionTooLargeException"})
             elif out == "Ok" and res.get("kind") in ("list", "dict", "set", "tuple") and c.get("expect") == "TooLarge":
@@ -1019,7 +1033,7 @@ def check_quota_result(run, t, res, c):
     out = "Hung" if res.get("hung") else res["outcome"]
     Q = t["Q"]
     would = c.get("would_allocate")
-    data = {"kind": "expr", "expr": t["expr"], "Q": Q, "ctx": t.get("ctx"), "raw": bool(t.get("raw")),
+    data = {"kind": "expr", "expr": t["expr"], "Q": Q, "ctx": t.get("ctx"), "raw": bool(t.get("raw")), "optroute": t.get("optroute"),
             "observed": {"outcome": out, "peak_traced_bytes": res.get("peak"), "result_own_size": res.get("size"),
                          "products_computed": res.get("products"), "arguments_over_quota": res.get("args_over_quota")}}
     if out in ("Hung", "Timeout", "MemoryError"):
@@ -1055,7 +1069,7 @@ def o_quota(run, deep):
         nonlocal k
         k += 1
         t = {"kind": "expr", "id": "q%d" % k, "expr": expr, "Q": Q, "ctx": ctx, "trace": True, "raw": raw,
-             "record_args": True, "seconds": 8, "deep": deep}
+             "record_args": True, "seconds": 8, "deep": deep, "optroute": WORKER_OPT_ROUTES[k % 3]}
         tasks.append(t)
         info[t["id"]] = {"would_allocate": would}
 
@@ -1260,7 +1274,7 @@ def replay(run, data):
     if kind == "expr":
         t = {"kind": "expr", "id": "replay", "expr": d["expr"], "N": d.get("N"), "Q": d.get("Q"), "ctx": d.get("ctx"),
              "trace": bool(d.get("Q")), "seconds": 5, "record_args": bool(d.get("Q")), "raw": d.get("raw", bool(d.get("Q")) and bool(d.get("ctx"))),
-             "deep": "largest_own_size_inside_result" in (d.get("observed") or {})}
+             "deep": "largest_own_size_inside_result" in (d.get("observed") or {}), "optroute": d.get("optroute")}
         sub = type(run)(run.pid, run.tier, run.seed)
         try:
             res = Pool(nworkers=1).run([t]).get("replay", {})
@@ -1268,6 +1282,8 @@ def replay(run, data):
                 return False
             if d.get("N") is not None:
                 if res["outcome"] in ("Timeout", "MemoryError", "PullCap") or res.get("pulls", 0) > d["N"] + 1:
+                    return False
+                if res["outcome"] == "Ok" and (res.get("width") or 0) > d["N"]:
                     return False
             if d.get("Q"):
                 req = d.get("required") or ""
